@@ -49,25 +49,27 @@ func TestDriverQuery(t *testing.T) {
 			sr := r.Fork(uint64(1000 + i))
 			var o stepOut
 			switch k := sr.Intn(100); {
-			case k < 16:
+			case k < 15:
 				o = w.stepEthCall(sr)
-			case k < 36:
+			case k < 34:
 				o = w.stepEstimate(sr)
-			case k < 45:
+			case k < 43:
 				o = w.stepTrace(sr)
-			case k < 52:
+			case k < 50:
 				o = w.stepReplay(sr)
-			case k < 59:
+			case k < 57:
 				o = w.stepSameSender(sr)
-			case k < 67:
+			case k < 61:
+				o = w.stepMempoolSeq(sr)
+			case k < 69:
 				o = w.stepCheckTx(sr)
-			case k < 74:
+			case k < 76:
 				o = w.stepSimulate(sr)
-			case k < 80:
+			case k < 81:
 				o = w.stepGrpc(sr)
-			case k < 83:
+			case k < 84:
 				o = w.stepGasCap(sr)
-			case k < 90:
+			case k < 91:
 				o = w.stepHistory(sr)
 			default:
 				o = w.stepBlock(sr)
